@@ -137,6 +137,30 @@ class Ten:
         return "Ten%s" % (self.shape,)
 
 
+class FVal:
+    """a value formatted into an f-string"""
+    def __init__(self, value, spec="", conv=-1):
+        self.value, self.spec, self.conv = value, spec, conv
+
+    def __repr__(self):
+        return "{%r:%s}" % (self.value, self.spec)
+
+
+class FStr:
+    """an f-string: literal pieces (str) and FVal pieces, in order"""
+    def __init__(self, parts):
+        self.parts = parts
+
+    def values(self):
+        return [p.value for p in self.parts if isinstance(p, FVal)]
+
+    def template(self):
+        return "".join(p if isinstance(p, str) else "{:%s}" % p.spec for p in self.parts)
+
+    def __repr__(self):
+        return "f" + repr("".join(p if isinstance(p, str) else repr(p) for p in self.parts))
+
+
 class NeedChoice(Exception):
     """a test that depends on symbolic values was met and no answer is scheduled for it (run_paths re-runs with both answers)"""
 
@@ -306,6 +330,8 @@ class TenSym(PySym):
         return Ten(sh, [f(*xs) for xs in zip(*[t.data for t in ts])])
 
     def equal(self, a, b):
+        if a is None or b is None:
+            return a is b
         a, b = self.lift(a), self.lift(b)
         if isinstance(a, Ten) or isinstance(b, Ten):
             a, b = self.to_ten(a), self.to_ten(b)
@@ -469,6 +495,15 @@ class TenSym(PySym):
 
     # ------------------------------------------------------------------ expressions
     def ex(self, n):
+        if isinstance(n, ast.JoinedStr):
+            # an f-string is the sequence of its literal pieces and the values formatted into it
+            parts = []
+            for p_ in n.values:
+                if isinstance(p_, ast.Constant):
+                    parts.append(p_.value)
+                else:
+                    parts.append(FVal(self.ex(p_.value), src(p_.format_spec) if p_.format_spec is not None else "", p_.conversion))
+            return FStr(parts)
         if isinstance(n, ast.Constant):
             if n.value is None or isinstance(n.value, (str, bool)) or n.value is Ellipsis:
                 return n.value
@@ -684,6 +719,11 @@ class TenSym(PySym):
         if isinstance(v, (tuple, list)):
             return tuple(self.concrete(x) for x in v)
         return (self.concrete(v),)
+
+    def extreme(self, name, values):
+        """smallest ('min') / largest ('max') of symbolic values: an opaque function of the *set* of the values"""
+        items = sorted({repr(self.reduce(x)): x for x in values}.items())
+        return self.opaque_tensor(name, [Ten((len(items),), [x for _, x in items]), None], ())
 
     def opaque_tensor(self, name, args, shape):
         for (f, a, r) in self.calls:
@@ -1011,6 +1051,8 @@ class TenSym(PySym):
                 vals = [self.pyval(x) for x in self.iterate(A(0))]
             if cn == "reversed":
                 return list(reversed(vals))
+            if cn in ("min", "max") and any(isinstance(v, Rat) for v in vals) and all(isinstance(v, (Rat, int, float, Fraction)) and not isinstance(v, bool) for v in vals) and not n.keywords:
+                return self.extreme(cn, [self.lift(v) for v in vals])
             if any(isinstance(v, (Rat, Ten, Obj)) for v in vals):
                 raise Unsupported("%s of symbolic values" % cn)
             if cn == "sorted":
@@ -1040,7 +1082,7 @@ class TenSym(PySym):
             t = self.to_ten(A(0))
             cs = [x.const_value() for x in t.data]
             if any(c is None for c in cs):
-                return self.opaque_tensor(last, [t, None], ())
+                return self.extreme(last[-3:], t.data)
             return Rat(Poly.const(max(cs) if last in ("max", "amax") else min(cs)))
         if cn in ("np.argmin", "np.argmax", "np.argsort"):
             t = self.to_ten(A(0))
@@ -1210,6 +1252,9 @@ class TenSym(PySym):
             raise TenSym._Return()
         elif isinstance(s, ast.Expr):
             if isinstance(s.value, ast.Constant):
+                return
+            if isinstance(s.value, ast.Call) and (call_name(s.value) or "") in self.models:
+                self.ex(s.value)
                 return
             if isinstance(s.value, ast.Call) and (call_name(s.value) or "").split(".")[-1] in ("warn", "write", "print"):
                 return
